@@ -19,7 +19,7 @@
    [nth _ _ v0] and v0 is absorbing for vmul; the separately named lemmas and [normal_form_arrange_nowf] are
    therefore stated WITHOUT it (strictly stronger), and [normal_form_arrange] keeps the requested signature
    (with [wf_k K]) as an immediate corollary.  [kfactors K <> []] is needed for (c) only (with no factor matrix
-   k_fix_neg is the identity, as is the Python loop-free path) and is implied by [n < length (kfactors K)] in (b). *)
+   the model's k_fix_neg is the identity, so a negative weight would survive) and is implied by [n < length (kfactors K)] in (b). *)
 From Coq Require Import List Arith Lia Bool Permutation Ring ZArith.
 From PV Require Import Base.Index Base.Perm Base.Sum Np.Array Model.Sparse Model.Repr Model.C08Kruskal Proofs.C08Proofs.
 Import ListNotations.
@@ -285,3 +285,35 @@ Proof. intros _. apply normal_form_arrange_nowf. Qed.
 
 End Oracles.
 End NormalForm.
+
+(* ------------------------------------------------------------------------------------------------ *)
+(* concrete run (a test of the executable model, not a theorem): rank 3, order 2 (3 x 3 and 4 x 3), *)
+(* columns with a single +-1 entry, weights [2; -5; 3].  After the sign step the weights are         *)
+(* [2; 5; 3] (column 1 of factor 0 negated) and argsort(w)[::-1] = [1; 2; 0] is a 3-CYCLE            *)
+(* (not an involution): gathering with p and with its inverse [2; 0; 1] give different answers       *)
+(* ([5;3;2] versus [3;2;5]), so the example pins the direction of the gather.                        *)
+(* Oracles over Z: nrm = sum of absolute values (= the 2-norm on such columns), vinv = identity     *)
+(* (only ever applied to 1), pos/neg the strict comparisons with 0, srt = the stable descending      *)
+(* argsort of Model/C08Kruskal.v.                                                                    *)
+(* ------------------------------------------------------------------------------------------------ *)
+Section ExampleZ.
+Local Open Scope Z_scope.
+Definition nfz_nrm (l : list Z) : Z := fold_right (fun x a => Z.abs x + a) 0 l.
+Definition nfz_arrange : ktensor Z -> ktensor Z :=
+  k_arrange 0 1 Z.mul Z.opp (fun x => x) nfz_nrm (fun x => 0 <? x) (fun x => x <? 0) (fun x => x)
+            (argsort_desc Z.leb) None.
+Definition nfz_K : ktensor Z :=
+  mkK [2; -5; 3]
+      [ [[1; 0; 0]; [0; -1; 0]; [0; 0; 1]];
+        [[0; 1; 0]; [-1; 0; 0]; [0; 0; 0]; [0; 0; -1]] ].
+
+Example normal_form_arrange_run :
+  argsort_desc Z.leb [2; 5; 3] = [1; 2; 0]%nat /\
+  nfz_arrange nfz_K =
+  mkK [5; 3; 2]
+      [ [[0; 0; 1]; [1; 0; 0]; [0; 1; 0]];
+        [[1; 0; 0]; [0; 0; -1]; [0; 0; 0]; [0; -1; 0]] ].
+Proof. vm_compute. split; reflexivity. Qed.
+End ExampleZ.
+
+Print Assumptions normal_form_arrange.
